@@ -3,8 +3,8 @@ from .. import gen as G
 from . import base
 from .base import replay  # noqa: F401
 
-THEOREMS = ["cf_refines_log", "cf_requests", "softmax_sum_one", "popularity_normalised", "readd_is_fresh",
-            "fit_closed_form", "parallelFit_order_irrelevant"]
+from .theorems import THEOREMS as _T
+THEOREMS = _T["C01"]
 LEVEL_NOTE = ("Lean theorems over the model of greedy/UCB1/Softmax/Thompson/Popularity/Random for all histories over "
               "{fit, partial_fit, add_arm, remove_arm}; tie to /repo by correspondence on generated histories "
               "(predict_expectations, sampler request parameters). Float rounding and the samplers are outside the model.")
